@@ -289,15 +289,55 @@ Definition planned_ctx (s : state) (st : stage) : kv := kv_update (merged_ancest
 (* handlers                                                                                    *)
 (* ------------------------------------------------------------------------------------------ *)
 
-Definition commit := state -> state.
+(* A commit is a list of primitive writes executed in ONE database transaction (deep embedding: every
+   property of "all commits" is an induction over this datatype). *)
+Inductive op :=
+| OPut (i : nat) (st : stage)          (* store_stage of the handler's stage object (row overwritten) *)
+| OMut (i : nat) (f : stage -> stage)  (* store_stage of a freshly re-read stage after applying f *)
+| OPush (m : msg)                      (* push_message (or queue.push for a non-transactional push) *)
+| OMark (id : nat)                     (* mark_message_processed *)
+| OWf (x : status)                     (* update_workflow_status *)
+| OCancelFlag                          (* repository.cancel: is_canceled := true *)
+| OClaims (c : list (bool * nat * nat))(* stage_claims after acquire_claim *)
+| OGStart (i : nat) (jc : Z)           (* ghost: this commit moved stage i NOT_STARTED -> RUNNING *)
+| OBump (id : nat)                     (* poll_one's claim: attempts + 1 (lock) *)
+| OAck (id : nat).                     (* queue.ack: delete the row *)
 
-Record hres := { h_pre : commit;            (* in-memory / external effect that happens before any commit *)
+Definition commit := list op.
+
+Definition mutate_stage (j : nat) (f : stage -> stage) (s : state) : state :=
+  match get_stage s j with Some st => put_stage j (f st) s | None => s end.
+
+Definition apply_op (s : state) (o : op) : state :=
+  match o with
+  | OPut i st => put_stage i st s
+  | OMut i f => mutate_stage i f s
+  | OPush m => push m s
+  | OMark id => mark id s
+  | OWf x => set_wf_status x s
+  | OCancelFlag => set_canceled s
+  | OClaims c => with_claims c s
+  | OGStart i jc => ghost_start i jc s
+  | OBump id => bump_attempts id s
+  | OAck id => ack id s
+  end.
+
+Definition apply_commit (s : state) (c : commit) : state := fold_left apply_op c s.
+
+Record hres := { h_pre : option (nat * nat); (* the task executed by this handler invocation (before any commit) *)
                  h_commits : list commit;
-                 h_raised : bool }.         (* handler raised: processor reschedules, no mark, no ack *)
+                 h_raised : bool }.          (* handler raised: processor reschedules, no mark, no ack *)
 
-Definition ok (cs : list commit) : hres := {| h_pre := fun s => s; h_commits := cs; h_raised := false |}.
-Definition comp (f g : commit) : commit := fun s => g (f s).
-Definition txn (fs : list commit) : commit := fun s => fold_left (fun s f => f s) fs s.
+Definition ok (cs : list commit) : hres := {| h_pre := None; h_commits := cs; h_raised := false |}.
+Definition raised : hres := {| h_pre := None; h_commits := []; h_raised := true |}.
+Definition txn (fs : list commit) : commit := concat fs.
+Definition c_put (i : nat) (st : stage) : commit := [OPut i st].
+Definition c_mutate (i : nat) (f : stage -> stage) : commit := [OMut i f].
+Definition c_push (m : msg) : commit := [OPush m].
+Definition c_pushes (ms : list msg) : commit := map OPush ms.
+Definition c_mark (id : nat) : commit := [OMark id].
+Definition c_wf (x : status) : commit := [OWf x].
+Definition c_cancel : commit := [OCancelFlag].
 
 (* ---- StartWorkflow ---- *)
 Definition initial_stages (s : state) : list nat :=
@@ -308,8 +348,8 @@ Definition handle_start_workflow (s : state) (id : nat) : hres :=
   if negb (status_eqb (w_status s) NOT_STARTED) then ok []
   else if w_canceled s then ok []
   else match initial_stages s with
-       | [] => ok [txn [set_wf_status TERMINAL; mark id]]
-       | ini => ok [txn [set_wf_status RUNNING; mark id; pushes (map (fun j => MStartStage j 0) ini)]]
+       | [] => ok [txn [c_wf TERMINAL; c_mark id]]
+       | ini => ok [txn [c_wf RUNNING; c_mark id; c_pushes (map (fun j => MStartStage j 0) ini)]]
        end.
 
 (* ---- StartStage ---- *)
@@ -368,37 +408,36 @@ Definition start_if_ready (s : state) (id i : nat) (retry : Z) (st0 : stage) (by
   let st := if bypass then st_ctl st0 false (s_jump_count st0) (s_buffered st0) (s_signal st0) else st0 in
   let zombie := status_eqb (s_status st) RUNNING && (s_plan_pending st || is_nil (s_tasks st)) in
   if negb (start_stage_fresh (s_status st)) && negb zombie then ok []
-  else if should_skip st then ok [txn [mark id; push (MSkipStage i)]]
-  else if mutex_blocked s i st then ok [push (MStartStage i (retry + 1))]
-  else if choice_claimed s i st then ok [txn [mark id; push (MCancelStage i)]]
+  else if should_skip st then ok [txn [c_mark id; c_push (MSkipStage i)]]
+  else if mutex_blocked s i st then ok [c_push (MStartStage i (retry + 1))]
+  else if choice_claimed s i st then ok [txn [c_mark id; c_push (MCancelStage i)]]
   else
     (* claim transaction *)
     let m := match s_mutex st with
              | Some k => acquire_claim s true k i true
              | None => (true, w_claims s) end in
-    if negb (fst m) then ok [push (MStartStage i (retry + 1))]
+    if negb (fst m) then ok [c_push (MStartStage i (retry + 1))]
     else
       let s1 := with_claims (snd m) s in
       let c := match s_choice st with
                | Some g => acquire_claim s1 false g i false
                | None => (true, snd m) end in
-      if negb (fst c) then ok [txn [mark id; push (MCancelStage i)]]
+      if negb (fst c) then ok [txn [c_mark id; c_push (MCancelStage i)]]
       else
         let claimed := if zombie then st_touch st
                        else with_pending (st_set st RUNNING true (s_ended st) (s_fired st) (s_branches st) (s_has_exc st)
                                                          (s_ctx st) (s_outs st) (s_tasks st)) true in
-        let claim_commit : commit := fun s' =>
-          let s2 := put_stage i claimed (with_claims (snd c) s') in
-          if zombie then s2 else ghost_start i (s_jump_count st) s2 in
+        let claim_commit : commit :=
+          [OClaims (snd c); OPut i claimed] ++ (if zombie then [] else [OGStart i (s_jump_count st)]) in
         let sib_commits : list commit :=
           match s_choice st with
-          | Some g => map (fun j => push (MCancelStage j)) (siblings_not_started s i g)
+          | Some g => map (fun j => c_push (MCancelStage j)) (siblings_not_started s i g)
           | None => [] end in
         let fired := match s_join st with J_DISCRIMINATOR | J_N_OF_M => true | _ => s_fired st end in
         let planned := with_pending (st_set claimed (s_status claimed) (s_started claimed) (s_ended claimed) fired (s_branches claimed)
                               (s_has_exc claimed) (planned_ctx s st) (s_outs claimed) (s_tasks claimed)) false in
         ok ([claim_commit] ++ sib_commits ++
-            [txn [put_stage i planned; mark id; pushes (first_msgs i st)]]).
+            [txn [c_put i planned; c_mark id; c_pushes (first_msgs i st)]]).
 
 Definition handle_start_stage (s : state) (id i : nat) (retry : Z) : hres :=
   match get_stage s i with
@@ -409,16 +448,16 @@ Definition handle_start_stage (s : state) (id i : nat) (retry : Z) : hres :=
       let r := evaluate_readiness (rstage_of st) ups bypass in
       match rr_phase r with
       | P_READY => start_if_ready s id i retry st bypass
-      | P_SKIP => ok [push (MCompleteWorkflow 0)]
+      | P_SKIP => ok [c_push (MCompleteWorkflow 0)]
       | _ =>
           if start_stage_late (s_status st) then ok []
           else if start_stage_waits r ups then ok []
           else if wait_exhausted retry max_stage_wait_retries then
             if can_transition (s_status st) TERMINAL then
-              ok [txn [put_stage i (st_set st TERMINAL (s_started st) true (s_fired st) (s_branches st) true (s_ctx st) (s_outs st) (s_tasks st)); push (MCompleteStage i)]]
+              ok [txn [c_put i (st_set st TERMINAL (s_started st) true (s_fired st) (s_branches st) true (s_ctx st) (s_outs st) (s_tasks st)); c_push (MCompleteStage i)]]
             else (* InvalidStateTransitionError -> generic except -> do_mark_error on the fresh stage *)
-              ok [txn [put_stage i (st_exc st); push (MCompleteStage i)]]
-          else ok [push (MStartStage i (retry + 1))]
+              ok [txn [c_put i (st_exc st); c_push (MCompleteStage i)]]
+          else ok [c_push (MStartStage i (retry + 1))]
       end
   end.
 
@@ -430,10 +469,10 @@ Definition handle_start_task (s : state) (id i t : nat) : hres :=
       match nth_error (s_tasks st) t with
       | None => ok []
       | Some tk =>
-          if negb (start_task_guard (t_status tk)) then ok [mark id]
+          if negb (start_task_guard (t_status tk)) then ok [c_mark id]
           else if t_disabled tk then
-            ok [txn [put_stage i (st_tasks st (task_set (s_tasks st) t SKIPPED (t_started tk))); mark id; push (MCompleteTask i t SKIPPED)]]
-          else ok [txn [put_stage i (st_tasks st (task_set (s_tasks st) t RUNNING true)); mark id; push (MRunTask i t)]]
+            ok [txn [c_put i (st_tasks st (task_set (s_tasks st) t SKIPPED (t_started tk))); c_mark id; c_push (MCompleteTask i t SKIPPED)]]
+          else ok [txn [c_put i (st_tasks st (task_set (s_tasks st) t RUNNING true)); c_mark id; c_push (MRunTask i t)]]
       end
   end.
 
@@ -446,41 +485,41 @@ Definition jump_target_ok (s : state) (tg : nat) : bool := tg <? length (w_stage
 Definition process_result (s : state) (id i t : nat) (st : stage) (tk : task) (r : tresult) : list commit :=
   match r with
   | RRunning c =>
-      [txn [put_stage i (st_data st (kv_update (s_ctx st) c) (s_outs st)); push (MRunTask i t)]]
+      [txn [c_put i (st_data st (kv_update (s_ctx st) c) (s_outs st)); c_push (MRunTask i t)]]
   | RSucceed o =>
-      [txn [put_stage i (st_data st (s_ctx st) (kv_update (s_outs st) o)); mark id; push (MCompleteTask i t SUCCEEDED)]]
-  | RFailedContinue => [txn [put_stage i (st_touch st); mark id; push (MCompleteTask i t FAILED_CONTINUE)]]
-  | RStopped => [txn [put_stage i (st_touch st); mark id; push (MCompleteTask i t STOPPED)]]
-  | RSkipped => [txn [put_stage i (st_touch st); mark id; push (MCompleteTask i t SKIPPED)]]
-  | RRedirect => [txn [put_stage i (st_touch st); mark id; push (MCompleteTask i t REDIRECT)]]
+      [txn [c_put i (st_data st (s_ctx st) (kv_update (s_outs st) o)); c_mark id; c_push (MCompleteTask i t SUCCEEDED)]]
+  | RFailedContinue => [txn [c_put i (st_touch st); c_mark id; c_push (MCompleteTask i t FAILED_CONTINUE)]]
+  | RStopped => [txn [c_put i (st_touch st); c_mark id; c_push (MCompleteTask i t STOPPED)]]
+  | RSkipped => [txn [c_put i (st_touch st); c_mark id; c_push (MCompleteTask i t SKIPPED)]]
+  | RRedirect => [txn [c_put i (st_touch st); c_mark id; c_push (MCompleteTask i t REDIRECT)]]
   | RCanceled =>
-      [txn [put_stage i (st_touch st); mark id; push (MCompleteTask i t (failure_status (s_cof st) (s_fp st) CANCELED))]]
+      [txn [c_put i (st_touch st); c_mark id; c_push (MCompleteTask i t (failure_status (s_cof st) (s_fp st) CANCELED))]]
   | RTerminal =>
-      [txn [put_stage i (st_touch st); mark id; push (MCompleteTask i t (failure_status (s_cof st) (s_fp st) TERMINAL))]]
+      [txn [c_put i (st_touch st); c_mark id; c_push (MCompleteTask i t (failure_status (s_cof st) (s_fp st) TERMINAL))]]
   | RJump tg =>
-      [txn [put_stage i (st_touch st); mark id; push (MJumpToStage i tg [] []); push (MCompleteTask i t REDIRECT)]]
+      [txn [c_put i (st_touch st); c_mark id; c_push (MJumpToStage i tg [] []); c_push (MCompleteTask i t REDIRECT)]]
   | RSuspend =>
       match s_buffered st with
       | sig :: rest =>
           (* consume the first buffered signal and re-run the task in the same commit *)
-          [txn [put_stage i (st_touch (st_ctl st (s_bypass st) (s_jump_count st) rest (Some sig))); mark id; push (MRunTask i t)]]
+          [txn [c_put i (st_touch (st_ctl st (s_bypass st) (s_jump_count st) rest (Some sig))); c_mark id; c_push (MRunTask i t)]]
       | [] =>
-          [txn [put_stage i (st_set st SUSPENDED (s_started st) (s_ended st) (s_fired st) (s_branches st) (s_has_exc st)
-                                   (s_ctx st) (s_outs st) (task_set (s_tasks st) t SUSPENDED (t_started tk))); mark id]]
+          [txn [c_put i (st_set st SUSPENDED (s_started st) (s_ended st) (s_fired st) (s_branches st) (s_has_exc st)
+                                   (s_ctx st) (s_outs st) (task_set (s_tasks st) t SUSPENDED (t_started tk))); c_mark id]]
       end
   | RTransient _ | RPermanent => []   (* exceptions: see handle_exception *)
   end.
 
 Definition mark_terminal (id i t : nat) (st : stage) : list commit :=
-  [txn [put_stage i (st_exc st); mark id; push (MCompleteTask i t (failure_status (s_cof st) (s_fp st) TERMINAL))]].
+  [txn [c_put i (st_exc st); c_mark id; c_push (MCompleteTask i t (failure_status (s_cof st) (s_fp st) TERMINAL))]].
 
 Definition handle_exception (s : state) (id i t : nat) (st : stage) (attempts : Z) (r : tresult) : list commit :=
   match r with
   | RTransient c =>
       if retry_guard attempts default_max_attempts then
         match c with
-        | [] => [txn [push (MRunTask i t)]]
-        | _ => [txn [put_stage i (st_data st (kv_update (s_ctx st) c) (s_outs st)); push (MRunTask i t)]]
+        | [] => [txn [c_push (MRunTask i t)]]
+        | _ => [txn [c_put i (st_data st (kv_update (s_ctx st) c) (s_outs st)); c_push (MRunTask i t)]]
         end
       else mark_terminal id i t st
   | _ => mark_terminal id i t st
@@ -493,12 +532,12 @@ Definition handle_run_task (orc : oracle) (s : state) (id i t : nat) (attempts :
       match nth_error (s_tasks st) t with
       | None => ok []
       | Some tk =>
-          if negb (run_task_guard (t_status tk)) then ok [mark id]
-          else if w_canceled s then ok [txn [mark id; push (MCompleteTask i t CANCELED)]]
-          else if is_complete (w_status s) then ok [txn [mark id; push (MCompleteTask i t CANCELED)]]
+          if negb (run_task_guard (t_status tk)) then ok [c_mark id]
+          else if w_canceled s then ok [txn [c_mark id; c_push (MCompleteTask i t CANCELED)]]
+          else if is_complete (w_status s) then ok [txn [c_mark id; c_push (MCompleteTask i t CANCELED)]]
           else
             let r := orc i t (count_execs s i t) in
-            {| h_pre := ghost_exec i t;
+            {| h_pre := Some (i, t);
                h_commits := match r with
                             | RTransient _ | RPermanent => handle_exception s id i t st attempts r
                             | _ => process_result s id i t st tk r
@@ -515,13 +554,13 @@ Definition handle_complete_task (s : state) (id i t : nat) (x : status) : hres :
       match nth_error (s_tasks st) t with
       | None => ok []
       | Some tk =>
-          if negb (complete_task_guard (t_status tk) x) then ok [mark id]
-          else if negb (can_transition (t_status tk) x) then {| h_pre := fun s => s; h_commits := []; h_raised := true |}
+          if negb (complete_task_guard (t_status tk) x) then ok [c_mark id]
+          else if negb (can_transition (t_status tk) x) then raised
           else
             let st' := st_tasks st (task_set (s_tasks st) t x (t_started tk)) in
-            if status_eqb x REDIRECT then ok [txn [put_stage i st'; mark id]]
-            else if S t <? length (s_tasks st) then ok [txn [put_stage i st'; mark id; push (MStartTask i (S t))]]
-            else ok [txn [put_stage i st'; mark id; push (MCompleteStage i)]]
+            if status_eqb x REDIRECT then ok [txn [c_put i st'; c_mark id]]
+            else if S t <? length (s_tasks st) then ok [txn [c_put i st'; c_mark id; c_push (MStartTask i (S t))]]
+            else ok [txn [c_put i st'; c_mark id; c_push (MCompleteStage i)]]
       end
   end.
 
@@ -532,10 +571,8 @@ Definition join_tracking (s : state) (i : nat) (ds : list nat) : list commit :=
                          match s_join dst with
                          | J_DISCRIMINATOR | J_N_OF_M =>
                              if mem_nat i (s_branches dst) then []
-                             else [fun s' => match get_stage s' d with
-                                             | Some f => put_stage d (st_set f (s_status f) (s_started f) (s_ended f) (s_fired f)
-                                                                         (s_branches f ++ [i]) (s_has_exc f) (s_ctx f) (s_outs f) (s_tasks f)) s'
-                                             | None => s' end]
+                             else [c_mutate d (fun f => st_set f (s_status f) (s_started f) (s_ended f) (s_fired f)
+                                                                    (s_branches f ++ [i]) (s_has_exc f) (s_ctx f) (s_outs f) (s_tasks f))]
                          | _ => []
                          end
                      | None => [] end) ds.
@@ -544,21 +581,21 @@ Definition handle_complete_stage (s : state) (id i : nat) : hres :=
   match get_stage s i with
   | None => ok []
   | Some st =>
-      if status_eqb (s_status st) NOT_STARTED then ok [mark id]
+      if status_eqb (s_status st) NOT_STARTED then ok [c_mark id]
       else if negb (complete_stage_guard (s_status st)) then
-        if is_halt (s_status st) then ok [txn [mark id; push (MCompleteWorkflow 0)]] else ok []
+        if is_halt (s_status st) then ok [txn [c_mark id; c_push (MCompleteWorkflow 0)]] else ok []
       else
         let x := determine_status (s_status st) (s_cof st) (s_fp st) [] (map t_status (s_tasks st)) [] in
-        if status_eqb x RUNNING then ok [mark id]
-        else if negb (can_transition (s_status st) x) then {| h_pre := fun s => s; h_commits := []; h_raised := true |}
+        if status_eqb x RUNNING then ok [c_mark id]
+        else if negb (can_transition (s_status st) x) then raised
         else
           let st' := st_end st x in
           if status_eqb x SUCCEEDED || status_eqb x FAILED_CONTINUE || status_eqb x SKIPPED then
             let ds := downstream s i in
             ok (join_tracking s i ds ++
-                [txn [put_stage i st'; mark id;
-                      pushes (match ds with [] => [MCompleteWorkflow 0] | _ => map (fun d => MStartStage d 0) ds end)]])
-          else ok [txn [put_stage i st'; push (MCancelStage i); push (MCompleteWorkflow 0)]]
+                [txn [c_put i st'; c_mark id;
+                      c_pushes (match ds with [] => [MCompleteWorkflow 0] | _ => map (fun d => MStartStage d 0) ds end)]])
+          else ok [txn [c_put i st'; c_push (MCancelStage i); c_push (MCompleteWorkflow 0)]]
   end.
 
 (* ---- SkipStage ---- *)
@@ -569,8 +606,8 @@ Definition handle_skip_stage (s : state) (id i : nat) : hres :=
       if negb (skip_stage_guard (s_status st)) then ok []
       else
         let ds := downstream s i in
-        ok [txn [put_stage i (st_end st SKIPPED); mark id;
-                 pushes (match ds with [] => [MCompleteWorkflow 0] | _ => map (fun d => MStartStage d 0) ds end)]]
+        ok [txn [c_put i (st_end st SKIPPED); c_mark id;
+                 c_pushes (match ds with [] => [MCompleteWorkflow 0] | _ => map (fun d => MStartStage d 0) ds end)]]
   end.
 
 (* ---- CancelStage ---- *)
@@ -583,9 +620,9 @@ Definition handle_cancel_stage (s : state) (id i : nat) : hres :=
   | None => ok []
   | Some st =>
       if negb (cancel_stage_guard (s_status st)) then ok []
-      else if negb (can_transition (s_status st) CANCELED) then {| h_pre := fun s => s; h_commits := []; h_raised := true |}
-      else ok [txn [put_stage i (st_set st CANCELED (s_started st) true (s_fired st) (s_branches st) (s_has_exc st)
-                                         (s_ctx st) (s_outs st) (cancel_tasks (s_tasks st))); mark id]]
+      else if negb (can_transition (s_status st) CANCELED) then raised
+      else ok [txn [c_put i (st_set st CANCELED (s_started st) true (s_fired st) (s_branches st) (s_has_exc st)
+                                         (s_ctx st) (s_outs st) (cancel_tasks (s_tasks st))); c_mark id]]
   end.
 
 (* ---- CompleteWorkflow ---- *)
@@ -602,11 +639,11 @@ Definition running_stages (s : state) : list nat :=
 Definition handle_complete_workflow (s : state) (id : nat) (retry : Z) : hres :=
   if is_complete (w_status s) then ok []
   else match determine_final_status (tl_view s) false retry max_stage_wait_retries with
-       | Requeue => ok [push (MCompleteWorkflow (retry + 1))]
+       | Requeue => ok [c_push (MCompleteWorkflow (retry + 1))]
        | Final x =>
-           if negb (can_transition (w_status s) x) then {| h_pre := fun s => s; h_commits := []; h_raised := true |}
-           else ok [txn [set_wf_status x; mark id;
-                         pushes (if status_eqb x SUCCEEDED then [] else map MCancelStage (running_stages s))]]
+           if negb (can_transition (w_status s) x) then raised
+           else ok [txn [c_wf x; c_mark id;
+                         c_pushes (if status_eqb x SUCCEEDED then [] else map MCancelStage (running_stages s))]]
        end.
 
 (* ---- CancelWorkflow ---- *)
@@ -615,9 +652,9 @@ Definition incomplete_stages (s : state) : list nat :=
          (seqn (length (w_stages s))).
 
 Definition handle_cancel_workflow (s : state) (id : nat) : hres :=
-  if is_complete (w_status s) then ok [mark id]
-  else ok [set_canceled;
-           txn [mark id; pushes (map MCancelStage (incomplete_stages s)); push (MCompleteWorkflow 0)]].
+  if is_complete (w_status s) then ok [c_mark id]
+  else ok [c_cancel;
+           txn [c_mark id; c_pushes (map MCancelStage (incomplete_stages s)); c_push (MCompleteWorkflow 0)]].
 
 (* ---- SignalStage (signal_stage.py) ---- *)
 Definition handle_signal_stage (s : state) (id i name : nat) (persistent : bool) : hres :=
@@ -629,15 +666,15 @@ Definition handle_signal_stage (s : state) (id i name : nat) (persistent : bool)
         let st1 := st_ctl st (s_bypass st) (s_jump_count st) (s_buffered st) (Some name) in
         match find (fun p => status_eqb (t_status (snd p)) SUSPENDED) (combine (seqn (length (s_tasks st))) (s_tasks st)) with
         | Some (ti, tk) =>
-            ok [txn [put_stage i (st_set st1 RUNNING (s_started st) (s_ended st) (s_fired st) (s_branches st) (s_has_exc st)
+            ok [txn [c_put i (st_set st1 RUNNING (s_started st) (s_ended st) (s_fired st) (s_branches st) (s_has_exc st)
                                          (s_ctx st) (s_outs st) (task_set (s_tasks st) ti RUNNING (t_started tk)));
-                     mark id; push (MRunTask i ti)]]
+                     c_mark id; c_push (MRunTask i ti)]]
         | None =>
-            ok [txn [put_stage i (st_status st1 RUNNING); mark id; push (MStartStage i 0)]]
+            ok [txn [c_put i (st_status st1 RUNNING); c_mark id; c_push (MStartStage i 0)]]
         end
       else if persistent then
-        ok [txn [put_stage i (st_touch (st_ctl st (s_bypass st) (s_jump_count st) (s_buffered st ++ [name]) (s_signal st))); mark id]]
-      else ok [mark id]
+        ok [txn [c_put i (st_touch (st_ctl st (s_bypass st) (s_jump_count st) (s_buffered st ++ [name]) (s_signal st))); c_mark id]]
+      else ok [c_mark id]
   end.
 
 (* ---- JumpToStage (jump_to_stage/{handler,traversal,reset}.py) ---- *)
@@ -690,9 +727,6 @@ Definition to_skipped (st : stage) : stage :=
   st_set st SKIPPED (s_started st) true (s_fired st) (s_branches st) (s_has_exc st) (s_ctx st) (s_outs st)
          (map (fun tk => {| t_status := SKIPPED; t_started := t_started tk; t_disabled := t_disabled tk |}) (s_tasks st)).
 
-Definition mutate (j : nat) (f : stage -> stage) : commit :=
-  fun s => match get_stage s j with Some st => put_stage j (f st) s | None => s end.
-
 Definition effective_max_jumps (s : state) (src : stage) : Z :=
   match w_max_jumps s with
   | Some m => m
@@ -703,12 +737,12 @@ Definition handle_jump (s : state) (id i tg : nat) (jctx : kv) : hres :=
   match get_stage s i with
   | None => ok []
   | Some src =>
-      if w_canceled s then ok [mark id] else
+      if w_canceled s then ok [c_mark id] else
       match get_stage s tg with
-      | None => ok [txn [mutate i to_terminal; mark id; push (MCompleteStage i)]]
+      | None => ok [txn [c_mutate i to_terminal; c_mark id; c_push (MCompleteStage i)]]
       | Some tgt =>
           if jump_exhausted (s_jump_count src) (effective_max_jumps s src) then
-            ok [txn [mutate i to_terminal; mark id; push (MCompleteStage i)]]
+            ok [txn [c_mutate i to_terminal; c_mark id; c_push (MCompleteStage i)]]
           else
             let resets := filter (fun j => negb (j =? i) && negb (j =? tg)) (closed_downstream s tg) in
             let self_loop := i =? tg in
@@ -722,14 +756,14 @@ Definition handle_jump (s : state) (id i tg : nat) (jctx : kv) : hres :=
             let set_jc (st : stage) := st_ctl st (s_bypass st) nj (s_buffered st) (s_signal st) in
             let src_mut : list commit :=
               if self_loop then []
-              else if backward then [mutate i (fun st => set_jc (reset_for_retry st))]
-              else [mutate i (fun st => set_jc (to_succeeded st))] in
+              else if backward then [c_mutate i (fun st => set_jc (reset_for_retry st))]
+              else [c_mutate i (fun st => set_jc (to_succeeded st))] in
             let tgt_mut : commit :=
-              mutate tg (fun st => let r := reset_for_retry st in
+              c_mutate tg (fun st => let r := reset_for_retry st in
                                    st_ctl (with_ctx r (kv_update (s_ctx r) jctx)) true nj (s_buffered r) (s_signal r)) in
-            ok [txn (map (fun j => mutate j reset_for_retry) resets ++
-                     map (fun j => mutate j to_skipped) skipped ++
-                     src_mut ++ [tgt_mut; mark id; push (MStartStage tg 0)])]
+            ok [txn (map (fun j => c_mutate j reset_for_retry) resets ++
+                     map (fun j => c_mutate j to_skipped) skipped ++
+                     src_mut ++ [tgt_mut; c_mark id; c_push (MStartStage tg 0)])]
       end
   end.
 
@@ -758,9 +792,7 @@ Definition find_row (s : state) (id : nat) : option qrow := find (fun r => q_id 
 
 (* one delivery: the poll's claim commit; then the in-memory / external pre-effect of the handler (the
    task execution); then the handler's commits, the post-handler processed mark and the ack *)
-Record delivery := { d_poll : commit; d_pre : commit; d_rest : list commit }.
-
-Definition no_delivery : delivery := {| d_poll := fun s => s; d_pre := fun s => s; d_rest := [] |}.
+Record delivery := { d_poll : commit; d_pre : option (nat * nat); d_rest : list commit }.
 
 Definition delivery_commits (orc : oracle) (s : state) (id : nat) (do_ack : bool) : option delivery :=
   match find_row s id with
@@ -771,15 +803,18 @@ Definition delivery_commits (orc : oracle) (s : state) (id : nat) (do_ack : bool
         let s1 := bump_attempts id s in
         let r := {| q_id := id; q_msg := q_msg r0; q_attempts := q_attempts r0 + 1 |} in
         if mem_nat id (w_processed s1) then
-          Some {| d_poll := bump_attempts id; d_pre := fun s => s; d_rest := if do_ack then [ack id] else [] |}
+          Some {| d_poll := [OBump id]; d_pre := None; d_rest := if do_ack then [[OAck id]] else [] |}
         else
           let h := handle orc s1 r in
-          Some {| d_poll := bump_attempts id; d_pre := h_pre h;
-                  d_rest := h_commits h ++ (if h_raised h then [] else mark id :: (if do_ack then [ack id] else [])) |}
+          Some {| d_poll := [OBump id]; d_pre := h_pre h;
+                  d_rest := h_commits h ++ (if h_raised h then [] else [OMark id] :: (if do_ack then [[OAck id]] else [])) |}
   end.
 
+Definition apply_pre (p : option (nat * nat)) (s : state) : state :=
+  match p with Some (i, t) => ghost_exec i t s | None => s end.
+
 Fixpoint apply_commits (cs : list commit) (s : state) : state :=
-  match cs with [] => s | c :: r => apply_commits r (c s) end.
+  match cs with [] => s | c :: r => apply_commits r (apply_commit s c) end.
 
 (* recovery.py:_recover_workflow — one transaction pushing every recovery message *)
 Definition has_pending_for_task (s : state) (i t : nat) : bool :=
@@ -822,7 +857,7 @@ Definition recovery_msgs (s : state) : list msg :=
     | _ => ms
     end.
 
-Definition recover (s : state) : state := pushes (recovery_msgs s) s.
+Definition recover (s : state) : state := apply_commit s (c_pushes (recovery_msgs s)).
 
 (* ------------------------------------------------------------------------------------------ *)
 (* actions and runs                                                                            *)
@@ -841,12 +876,12 @@ Definition step (orc : oracle) (s : state) (a : action) : state :=
   | Deliver id do_ack =>
       match delivery_commits orc s id do_ack with
       | None => s
-      | Some d => apply_commits (d_rest d) (d_pre d (d_poll d s))
+      | Some d => apply_commits (d_rest d) (apply_pre (d_pre d) (apply_commit s (d_poll d)))
       end
   | DeliverCut id k =>
       (* k = 0: the process died before the poll commit: the handler never ran *)
       match k, delivery_commits orc s id true with
-      | S k', Some d => apply_commits (firstn k' (d_rest d)) (d_pre d (d_poll d s))
+      | S k', Some d => apply_commits (firstn k' (d_rest d)) (apply_pre (d_pre d) (apply_commit s (d_poll d)))
       | _, _ => s
       end
   | Recover => recover s
@@ -859,18 +894,18 @@ Definition run (orc : oracle) (s : state) (acts : list action) : state := fold_l
 
 (* states after every commit of an action (for the commit-level correspondence) *)
 Fixpoint scan_commits (cs : list commit) (s : state) : list state :=
-  match cs with [] => [] | c :: r => let s' := c s in s' :: scan_commits r s' end.
+  match cs with [] => [] | c :: r => let s' := apply_commit s c in s' :: scan_commits r s' end.
 
 Definition step_trace (orc : oracle) (s : state) (a : action) : list state :=
   match a with
   | Deliver id do_ack =>
       match delivery_commits orc s id do_ack with
       | None => []
-      | Some d => d_poll d s :: scan_commits (d_rest d) (d_pre d (d_poll d s))
+      | Some d => apply_commit s (d_poll d) :: scan_commits (d_rest d) (apply_pre (d_pre d) (apply_commit s (d_poll d)))
       end
   | DeliverCut id k =>
       match k, delivery_commits orc s id true with
-      | S k', Some d => d_poll d s :: scan_commits (firstn k' (d_rest d)) (d_pre d (d_poll d s))
+      | S k', Some d => apply_commit s (d_poll d) :: scan_commits (firstn k' (d_rest d)) (apply_pre (d_pre d) (apply_commit s (d_poll d)))
       | _, _ => []
       end
   | _ => [step orc s a]
